@@ -699,6 +699,33 @@ func generate(r *runner) {
 		}
 	}
 
+	// The C03 boundary families (label lengths, totals around 253 in the raw
+	// and in the ToASCII form, IDN names longer than 253 bytes whose ASCII form
+	// is shorter), as they are, with an ASCII upper-case label in front, and in
+	// front of the two ARPA roots: the decoders validate the ToASCII form but go
+	// on working on the original text.
+	gen.C03Names(!c.Quick(), func(fam, s string) {
+		if !dsh.Mine() {
+			return
+		}
+
+		str("d-c03-"+fam, "", s, keyed(s))
+		str("d-c03-upper", "", "A."+s, keyed("A."+s))
+		str("d-c03-arpa", "", s+".IN-ADDR.arpa", keyed(s+".IN-ADDR.arpa"))
+		str("d-c03-arpa", "", s+".Ip6.arpa", keyed(s+".Ip6.arpa"))
+	})
+
+	// Every single-bit flip, deletion and doubling of every byte of the
+	// canonical ARPA names (bytes >= 0x80 where a hex digit or a separator is
+	// expected, control bytes that fold onto '-', '.', '6').
+	for _, base := range gen.ArpaCanonicalNames() {
+		gen.ByteMutations(base, func(m string) {
+			if dsh.Mine() {
+				str("d-arpa-byte-mutations", "", m, keyed(m))
+			}
+		})
+	}
+
 	// (f) Hosts-file lines and files.
 	hostsLines(maxHostsFields, sh(), func(line string, injective bool) {
 		mode := countKeyed
